@@ -258,6 +258,15 @@ theorem lexIdent_dot (inp : Array UInt8) (q : Nat) (id : Bytes) (d : Nat) (w : I
     omega
   rw [hdig]
   simp only [Bool.false_eq_true, if_false]
+  have hlet : ((byteAt inp (q + 1) : Nat) : Int) = 95 ∨ isLetterU ((byteAt inp (q + 1) : Nat) : Int) = true := by
+    have := letter_idStart hst
+    by_cases h95 : ((byteAt inp (q + 1) : Nat) : Int) = 95
+    · exact Or.inl h95
+    · right
+      cases hl : isLetterU ((byteAt inp (q + 1) : Nat) : Int) with
+      | true => rfl
+      | false => exact absurd ⟨h95, by simp [hl]⟩ this
+  rw [if_pos hlet]
   unfold lexIdentRest
   simp only [bind, Option.bind]
   rw [scanWhile_alnum inp q dd ts le its d hd id.length (q + 1) 1 (by omega)
